@@ -855,6 +855,11 @@ namespace sim
 			// the drop notification to attach to an outgoing packet
 			aux::function<void(aux::packet)> make_drop_fun();
 
+			// re-send dropped packets, as far as the congestion window allows
+			void resend_dropped();
+			// re-send from a timer when no ACK can be expected to trigger it
+			void schedule_resend();
+
 			aux::function<void(boost::system::error_code const&)> m_connect_handler;
 
 			asio::high_resolution_timer m_connect_timer;
